@@ -48,7 +48,7 @@ theorem C11_satisfiable_exact {E : Env} (hE : OracleExact E) {hook : PModel → 
     match z3Satisfiable E r extra hook s with
     | (.ok b, s') => (b = true ↔ ∃ a, SatBy ((objAt s r).asserted ++ extra) a) ∧ L1Step r P s s' ∧
                      (objAt s' r).frames = (objAt s r).frames
-    | (.error e, s') => e = .giveUp ∧ L1Step r P s s' ∧ (objAt s' r).frames = (objAt s r).frames :=
+    | (.error e, s') => IsGiveUp E e ∧ L1Step r P s s' ∧ (objAt s' r).frames = (objAt s r).frames :=
   z3Satisfiable_spec hE hh r extra s hA
 
 /-- `_batch_eval n`: every tuple is attained, tuples are pairwise distinct, at most `n`, and if fewer than `n` are
@@ -61,7 +61,7 @@ theorem C11_batch_eval_correct {E : Env} (hE : OracleExact E) {hook : PModel →
         (∀ t ∈ ts, Realises ((objAt s r).asserted ++ extra) exprs t) ∧ ts.Nodup ∧ ts.length ≤ n ∧
         (ts.length < n → ∀ a, SatBy ((objAt s r).asserted ++ extra) a → exprs.map (·.val a) ∈ ts) ∧
         L1Step r P s s' ∧ (objAt s' r).frames = (objAt s r).frames
-    | (.error e, s') => e = .giveUp ∧ L1Step r P s s' ∧ (objAt s' r).frames = (objAt s r).frames :=
+    | (.error e, s') => IsGiveUp E e ∧ L1Step r P s s' ∧ (objAt s' r).frames = (objAt s r).frames :=
   z3BatchEval_spec hE hh r exprs n extra s hr hne hA
 
 /-- `_extrema`: the true optimum, as an integer in the range of the requested signedness -/
@@ -72,7 +72,7 @@ theorem C11_extrema_correct {E : Env} (hE : OracleExact E) {hook : PModel → M 
     match z3Extrema E r isMax e extra signed hook s with
     | (.ok i, s') => IsOptZ isMax signed ((objAt s r).asserted ++ extra) e i ∧ L1Step r P s s' ∧
                      (objAt s' r).frames = (objAt s r).frames
-    | (.error err, s') => err = .giveUp ∧ L1Step r P s s' ∧ (objAt s' r).frames = (objAt s r).frames :=
+    | (.error err, s') => IsGiveUp E err ∧ L1Step r P s s' ∧ (objAt s' r).frames = (objAt s r).frames :=
   z3Extrema_spec hE hh r isMax e extra signed he s hA hsat
 
 /-! ### non-vacuity: a concrete exact run of the binary search (unsigned max of a 3-bit value constrained to ≤ 5) -/
